@@ -735,7 +735,7 @@ struct gen
         return rs[i];
     }
 
-    bool use(const char *th) const { return profile == th || profile == "mix" || (profile == "lrabig" && !strcmp(th, "lra")); }
+    bool use(const char *th) const { return profile == th || profile == "mix" || (profile == "lrabig" && !strcmp(th, "lra")) || (profile == "dlrel" && (!strcmp(th, "idl") || !strcmp(th, "rdl"))); }
 
     // one root-level creation step
     void create()
@@ -1008,6 +1008,54 @@ struct gen
         }
         for (int i = 0, k = (profile == "lrabig" ? 12 + rnd(8) : 3 + rnd(6)); i < k && !n.dead; ++i)
             create();
+        if (profile == "dlrel" && !n.dead)
+        { // relations and queries requested on a network whose root level already carries propagated constraints between
+          // the same time points (one theory per execution)
+            const bool real = coin(50);
+            const auto &tps = real ? rdl_tps : idl_tps;
+            const std::string rs = real ? "1" : "0";
+            if (tps.size() >= 2)
+            {
+                auto two = [&](var a, var b, int ca, int k0)
+                { return "{\"v\":[[" + std::to_string(std::min(a, b)) + "," + std::to_string(a < b ? ca : -ca) + ",1],[" + std::to_string(std::max(a, b)) + "," + std::to_string(a < b ? -ca : ca) + ",1]],\"k\":[" + std::to_string(k0) + ",1]}"; };
+                auto konst = [&](int k0) { return "{\"v\":[],\"k\":[" + std::to_string(k0) + ",1]}"; };
+                std::vector<long> mine;
+                for (int i = 0, k = 1 + rnd(2); i < k; ++i)
+                { // a - b rel c, asserted (or its negation) at root level
+                    var a = tps[rnd((int)tps.size())], b = a;
+                    while (b == a)
+                        b = tps[rnd((int)tps.size())];
+                    run("{\"e\":\"dl_rel\",\"real\":" + rs + ",\"rel\":\"" + rel(coin(50) ? 1 : 3) + "\",\"l\":" + two(a, b, 1, 0) + ",\"r\":" + konst(rnd(9) - 4) + "}");
+                    mine.push_back(last_ret());
+                }
+                for (long m : mine)
+                    if (!n.dead && m > 1)
+                        run("{\"e\":\"new_clause\",\"lits\":[" + std::to_string(coin(75) ? m : (m ^ 1)) + "]}");
+                if (!n.dead)
+                    run("{\"e\":\"propagate\"}");
+                for (int i = 0, k = 8 + rnd(6); i < k && !n.dead && n.sat.root_level(); ++i)
+                {
+                    var a = tps[rnd((int)tps.size())], b = a;
+                    while (b == a)
+                        b = tps[rnd((int)tps.size())];
+                    if (coin(75))
+                    {
+                        const int form = rnd(3), k1 = rnd(13) - 6, k2 = rnd(5) - 2;
+                        std::string l, r;
+                        if (form == 0)
+                            l = two(a, b, 1, k2), r = konst(k1);
+                        else if (form == 1)
+                            l = konst(k1), r = two(a, b, 1, k2);
+                        else
+                            l = "{\"v\":[[" + std::to_string(a) + ",1,1]],\"k\":[" + std::to_string(k2) + ",1]}", r = "{\"v\":[[" + std::to_string(b) + ",1,1]],\"k\":[" + std::to_string(k1) + ",1]}";
+                        run("{\"e\":\"dl_rel\",\"real\":" + rs + ",\"rel\":\"" + rel(coin(45) ? 2 : rnd(5)) + "\",\"l\":" + l + ",\"r\":" + r + "}");
+                        add_lit(last_ret());
+                    }
+                    else
+                        dl_query(real);
+                }
+            }
+        }
         // --- search ---
         int ops = 0;
         while (!n.dead && ops < max_ops)
